@@ -144,7 +144,7 @@ int32 Vsetclass(int32 vkey, const char *vgclass) { return nondet_int32(); }
 #define VH_NEG_CLAUSE(n, r) 1
 #endif
 #ifdef VH_DETACH
-#define VH_DETACH_CLAUSE(r) (!((r) == FAIL && g_vs != FAIL) || (g_detach_calls == 1 && g_detach_key == g_vs))
+#define VH_DETACH_CLAUSE(r) (!((r) == FAIL && g_attach_calls == 1 && g_vs != FAIL) || (g_detach_calls == 1 && g_detach_key == g_vs))
 #else
 #define VH_DETACH_CLAUSE(r) 1
 #endif
